@@ -606,3 +606,155 @@ Lemma alias_prog_fixed :
   map observe (run_fixed all_on [] alias_prog) =
   [(true, Some (0, [], [], [(ka, Node [(kb, Node [(kc, Node [(kx, Node [(kx, Leaf [x31])])])])])]))].
 Proof. vm_compute. reflexivity. Qed.
+
+(* ------------------------------------------------------------------ *)
+(* 7. isolation on the raw entries, whatever the conversion function   *)
+(*    (holds for the code before the fix as well): a handler is, up to *)
+(*    heap addresses, a pure value determined by its own derivation    *)
+(* ------------------------------------------------------------------ *)
+Record qh := { q_ctx : list field; q_name : bytes; q_groups : list bytes }.
+Definition abs (hp : heap) (h : handler) : qh :=
+  {| q_ctx := h_ctx h; q_name := h_name h; q_groups := read_groups hp (h_groups h) |}.
+Definition q_with_attrs (cv : bytes -> value -> field) (q : qh) (a : list attr) : qh :=
+  let '(F, added) := attr_loop cv (q_groups q) a [] false in
+  {| q_ctx := q_ctx q ++ F; q_name := q_name q; q_groups := if added then [] else q_groups q |}.
+Definition q_with_group_orig (q : qh) (g : bytes) : qh :=
+  {| q_ctx := q_ctx q; q_name := q_name q; q_groups := q_groups q ++ [g] |}.
+Definition q_with_group (q : qh) (g : bytes) : qh := if is_nil g then q else q_with_group_orig q g.
+Definition q_handle (cv : bytes -> value -> field) (en : Z -> bool) (q : qh) (l : Z) (m : bytes) (rec : list attr) : option entry :=
+  let zl := convert_slog_level l in
+  if en zl then
+    let '(F, _) := attr_loop cv (q_groups q) rec [] false in
+    Some {| e_level := zl; e_msg := m; e_name := q_name q; e_fields := q_ctx q ++ F |}
+  else None.
+Definition q_apply cv (qwg : qh -> bytes -> qh) (q : qh) (o : op) : qh :=
+  match o with OGroup g => qwg q g | OAttrs a => q_with_attrs cv q a end.
+Definition q_root (name : bytes) : qh := {| q_ctx := []; q_name := name; q_groups := [] |}.
+Definition q_derive cv qwg (name : bytes) (ops : list op) : qh := fold_left (q_apply cv qwg) ops (q_root name).
+
+Definition wg_ok (wg : heap -> handler -> bytes -> heap * handler) (qwg : qh -> bytes -> qh) : Prop :=
+  forall hp h g, svalid hp (h_groups h) ->
+    let '(hp', h') := wg hp h g in
+    (exists ext, hp' = hp ++ ext) /\ svalid hp' (h_groups h') /\ abs hp' h' = qwg (abs hp h) g.
+
+Lemma wg_ok_orig : wg_ok with_group_orig q_with_group_orig.
+Proof.
+  intros hp h g Hv. pose proof (with_group_orig_read hp h g) as H.
+  destruct (with_group_orig hp h g) as [hp' h']. destruct H as (Ehp & Er & Hv' & Ectx & Ename).
+  split; [eexists; exact Ehp|]. split; [exact Hv'|].
+  unfold abs, q_with_group_orig. cbn [q_ctx q_name q_groups]. now rewrite Er, Ectx, Ename.
+Qed.
+Lemma wg_ok_fixed : wg_ok with_group q_with_group.
+Proof.
+  intros hp h g Hv. unfold with_group, q_with_group. destruct (is_nil g).
+  - split; [exists []; now rewrite app_nil_r|]. split; [exact Hv|reflexivity].
+  - apply wg_ok_orig. exact Hv.
+Qed.
+
+Lemma abs_with_attrs cv hp h a : abs hp (with_attrs cv hp h a) = q_with_attrs cv (abs hp h) a.
+Proof.
+  unfold with_attrs, q_with_attrs, abs. cbn [q_groups q_ctx q_name].
+  destruct (attr_loop cv (read_groups hp (h_groups h)) a [] false) as [F added].
+  cbn [h_ctx h_name h_groups]. destruct added; reflexivity.
+Qed.
+Lemma svalid_with_attrs cv hp h a : svalid hp (h_groups h) -> svalid hp (h_groups (with_attrs cv hp h a)).
+Proof.
+  intro Hv. unfold with_attrs.
+  destruct (attr_loop cv (read_groups hp (h_groups h)) a [] false) as [F added].
+  cbn [h_groups]. destruct added; [exact I|exact Hv].
+Qed.
+Lemma handle_abs cv en hp h l m rec : handle cv en hp h l m rec = q_handle cv en (abs hp h) l m rec.
+Proof. reflexivity. Qed.
+Lemma abs_ext hp ext h : svalid hp (h_groups h) -> abs (hp ++ ext) h = abs hp h.
+Proof. intro Hv. unfold abs. now rewrite read_groups_ext. Qed.
+
+Section raw_isolation.
+  Variable cv : bytes -> value -> field.
+  Variable wg : heap -> handler -> bytes -> heap * handler.
+  Variable qwg : qh -> bytes -> qh.
+  Hypothesis Hwg : wg_ok wg qwg.
+  Variable en : Z -> bool.
+  Variable name : bytes.
+
+  Definition qinv (hp : heap) (h : handler) (ops : list op) : Prop :=
+    svalid hp (h_groups h) /\ abs hp h = q_derive cv qwg name ops.
+  Definition q_out (x : list op * Z * bytes * list attr) : out :=
+    match x with (ops, l, m, rec) => (enabled en l, q_handle cv en (q_derive cv qwg name ops) l m rec) end.
+
+  Lemma qinv_root hp : qinv hp (root name) [].
+  Proof. split; [exact I|reflexivity]. Qed.
+  Lemma qinv_ext hp ext h ops : qinv hp h ops -> qinv (hp ++ ext) h ops.
+  Proof. intros [Hv Ha]. split; [now apply svalid_ext|]. now rewrite abs_ext. Qed.
+  Lemma qinv_nth hp st paths i :
+    Forall2 (qinv hp) st paths -> qinv hp (nth i st (root name)) (nth i paths []).
+  Proof.
+    intro H. revert i. induction H as [|h ops st paths Hh _ IH]; intro i.
+    - destruct i; apply qinv_root.
+    - destruct i; [exact Hh|apply IH].
+  Qed.
+  Lemma q_derive_snoc ops o : q_derive cv qwg name (ops ++ [o]) = q_apply cv qwg (q_derive cv qwg name ops) o.
+  Proof. unfold q_derive. now rewrite fold_left_app. Qed.
+
+  Lemma run_raw p : forall hp st paths,
+    Forall2 (qinv hp) st paths ->
+    run cv wg en name hp st p = map q_out (handled_paths paths p).
+  Proof.
+    induction p as [|c r IH]; intros hp st paths HW; [reflexivity|].
+    destruct c as [par g|par a|i l m rec]; cbn [run handled_paths].
+    - destruct (qinv_nth _ _ _ par HW) as [Hv Ha].
+      pose proof (Hwg hp (nth par st (root name)) g Hv) as H.
+      destruct (wg hp (nth par st (root name)) g) as [hp' h'].
+      destruct H as ([ext ->] & Hv' & Ha'). apply IH.
+      apply Forall2_app.
+      + clear -HW. induction HW; constructor; [now apply qinv_ext|assumption].
+      + constructor; [|constructor]. split; [exact Hv'|].
+        rewrite Ha', Ha, q_derive_snoc. reflexivity.
+    - destruct (qinv_nth _ _ _ par HW) as [Hv Ha]. apply IH.
+      apply Forall2_app; [exact HW|]. constructor; [|constructor].
+      split; [now apply svalid_with_attrs|].
+      rewrite abs_with_attrs, Ha, q_derive_snoc. reflexivity.
+    - cbn [map]. rewrite (IH hp st paths HW). f_equal.
+      destruct (qinv_nth _ _ _ i HW) as [Hv Ha].
+      unfold q_out. now rewrite handle_abs, Ha.
+  Qed.
+
+  Lemma handled_paths_chain l m rec ops : forall paths base i,
+    length paths = S i -> nth i paths [] = base ->
+    handled_paths paths (chain_from i ops ++ [CHandle (i + length ops) l m rec]) = [(base ++ ops, l, m, rec)].
+  Proof.
+    induction ops as [|o r IH]; intros paths base i HL HB.
+    - cbn [chain_from app length handled_paths]. rewrite Nat.add_0_r, HB, app_nil_r. reflexivity.
+    - assert (HL' : length (paths ++ [base ++ [o]]) = S (S i)) by (rewrite app_length; cbn; lia).
+      assert (HB' : nth (S i) (paths ++ [base ++ [o]]) [] = base ++ [o])
+        by (rewrite app_nth2 by lia; rewrite HL, Nat.sub_diag; reflexivity).
+      specialize (IH _ _ _ HL' HB').
+      replace (i + length (o :: r))%nat with (S i + length r)%nat by (cbn; lia).
+      rewrite <- app_assoc in IH. cbn [app] in IH.
+      destruct o as [g|a]; cbn [chain_from app handled_paths]; rewrite HB; exact IH.
+  Qed.
+
+  Theorem isolated_raw p :
+    run cv wg en name [] [root name] p =
+    flat_map (fun x => match x with (ops, l, m, rec) => run cv wg en name [] [root name] (chain ops l m rec) end)
+             (handled_paths [[]] p).
+  Proof.
+    assert (H0 : Forall2 (qinv []) [root name] [[]]) by (constructor; [apply qinv_root|constructor]).
+    rewrite (run_raw p _ _ _ H0).
+    induction (handled_paths [[]] p) as [|[[[ops l] m] rec] r IH]; [reflexivity|].
+    cbn [map flat_map]. rewrite IH. f_equal.
+    rewrite (run_raw (chain ops l m rec) _ _ _ H0). unfold chain.
+    pose proof (handled_paths_chain l m rec ops [[]] [] 0%nat eq_refl eq_refl) as HC.
+    cbn [Nat.add app] in HC. rewrite HC. reflexivity.
+  Qed.
+End raw_isolation.
+
+Theorem isolated_raw_fixed en name p :
+  run_fixed en name p =
+  flat_map (fun x => match x with (ops, l, m, rec) => run_fixed en name (chain ops l m rec) end)
+           (handled_paths [[]] p).
+Proof. exact (isolated_raw convert with_group q_with_group wg_ok_fixed en name p). Qed.
+Theorem isolated_raw_orig en name p :
+  run_orig en name p =
+  flat_map (fun x => match x with (ops, l, m, rec) => run_orig en name (chain ops l m rec) end)
+           (handled_paths [[]] p).
+Proof. exact (isolated_raw convert_orig with_group_orig q_with_group_orig wg_ok_orig en name p). Qed.
